@@ -7,6 +7,7 @@ verus! {
 //@include assume_std.rs
 //@include dtype.rs
 //@include iter.rs
+//@include mapmodel.rs
 
 pub type T = ${T};
 
@@ -134,6 +135,261 @@ pub open spec fn pct_pair(a: f64, b: f64, r: f64) -> bool {
     ensures
         pct_ok(r.seq(), this.view(), n as int),        // #C13 vpct_change_positional
         honest_out(&*r),                               // #C09 vpct_change_preserves_length
+//@end
+
+// ---- fill / clip / abs act on each element alone (C13)
+pub open spec fn elementwise<A>(out: Seq<A>, x: Seq<A>, p: spec_fn(A, A) -> bool) -> bool {
+    &&& out.len() == x.len()                                                                   // as many elements as the input
+    &&& forall|i: int| 0 <= i < x.len() ==> p(x[i], #[trigger] out[i])
+}
+
+//@fn name=fill_mask crate=tea-map ctx="pub trait MapValidBasic" props=C13,C09
+//@sig fn fill_mask<F: Fn(&T) -> bool>(this: It<T>, mask_func: F, value: T) -> (r: It<T>)
+//@replace value.clone() => value
+//@closure 1 mode=annotate params="v: T" ret="(o: T)"
+//@closure 1 spec
+            requires mask_func.requires((&v,))
+            ensures (mask_func.ensures((&v,), true) && o == value) || (mask_func.ensures((&v,), false) && o == v)
+//@spec
+    requires
+        honest_out(&this), forall|v: &T| #[trigger] mask_func.requires((v,)),
+    ensures
+        elementwise(r.seq(), this.seq(), |a: T, o: T| (mask_func.ensures((&a,), true) && o == value) || (mask_func.ensures((&a,), false) && o == a)),   // #C13 fill_touches_only_masked_elements
+        honest_out(&r),                                                   // #C09 fill_preserves_length
+//@end
+
+// IsNone::is_none as the mask (R12: `T::is_none` -> `is_none_fn`): fill touches only nulls
+pub fn is_none_fn(v: &T) -> (r: bool) ensures r == v.opt().is_none() { v.is_none() }
+
+//@fn name=fill crate=tea-map ctx="pub trait MapValidBasic" props=C13,C09
+//@sig fn fill(this: It<T>, value: T) -> (r: It<T>)
+//@replace this.fill_mask(T::is_none, value) => fill_mask(this, is_none_fn, value)
+//@spec
+    requires honest_out(&this),
+    ensures
+        elementwise(r.seq(), this.seq(), |a: T, o: T| if a.opt().is_none() { o == value } else { o == a }),     // #C13 fill_touches_only_nulls
+        honest_out(&r),                                                   // #C09 fill_preserves_length
+//@end
+
+// clip: nulls stay null; a non-null value below the (non-null) lower bound becomes the lower bound, above the upper bound the upper bound
+pub open spec fn clip_elem(a: T, lower: T, upper: T, o: T) -> bool {
+    if a.opt().is_none() { o == a }
+    else if lower.opt().is_some() && a.opt().unwrap().rval() < lower.opt().unwrap().rval() { o == lower }
+    else if upper.opt().is_some() && a.opt().unwrap().rval() > upper.opt().unwrap().rval() { o == upper }
+    else { o == a }
+}
+
+//@fn name=vclip crate=tea-map ctx="pub trait MapValidBasic" props=C13,C09
+//@sig fn vclip(this: It<T>, lower: T, upper: T) -> (r: Box<It<T>>)
+//@replace lower.clone() => lower
+//@replace upper.clone() => upper
+//@replace v.clone() => v
+//@closure 1 mode=annotate params="v: T" ret="(o: T)"
+//@closure 1 spec
+                    requires canon(v)
+                    ensures clip_elem(v, lower, upper, o)
+//@closure 2 mode=annotate params="v: T" ret="(o: T)"
+//@closure 2 spec
+                    requires canon(v)
+                    ensures clip_elem(v, lower, upper, o)
+//@closure 3 mode=annotate params="v: T" ret="(o: T)"
+//@closure 3 spec
+                    requires canon(v)
+                    ensures clip_elem(v, lower, upper, o)
+//@at closure 1 first
+                    broadcast use a_real_cmp;
+//@at closure 2 first
+                    broadcast use a_real_cmp;
+//@at closure 3 first
+                    broadcast use a_real_cmp;
+//@spec
+    requires honest_out(&this), canon_seq(this.seq()), canon(lower), canon(upper),
+    ensures
+        elementwise(r.seq(), this.seq(), |a: T, o: T| clip_elem(a, lower, upper, o)),      // #C13 clip_acts_on_each_element_alone
+        honest_out(&*r),                                                                    // #C09 clip_preserves_length
+//@end
+
+// with lower <= upper every non-null result lies inside the bounds, and clipping again changes nothing
+pub proof fn lemma_clip_idempotent(a: T, lower: T, upper: T, o: T, o2: T)       // #C13
+    requires
+        canon(a), canon(lower), canon(upper), clip_elem(a, lower, upper, o), clip_elem(o, lower, upper, o2),
+        (lower.opt().is_some() && upper.opt().is_some()) ==> lower.opt().unwrap().rval() <= upper.opt().unwrap().rval(),
+    ensures
+        o2 == o,
+        a.opt().is_none() == o.opt().is_none(),
+        (o.opt().is_some() && lower.opt().is_some()) ==> o.opt().unwrap().rval() >= lower.opt().unwrap().rval(),
+        (o.opt().is_some() && upper.opt().is_some()) ==> o.opt().unwrap().rval() <= upper.opt().unwrap().rval(),
+{
+}
+
+// ---- forward fill (C13): each null is replaced by the nearest earlier non-null element, else the supplied default, else stays null
+pub open spec fn args<A, B>(h: Seq<(A, B)>) -> Seq<A> { Seq::new(h.len(), |i: int| h[i].0) }
+// the last non-null element among x[0..i)
+pub open spec fn lastv(x: Seq<T>, i: int) -> Option<T>
+    decreases i
+{
+    if i <= 0 { None } else if x[i - 1].opt().is_some() { Some(x[i - 1]) } else { lastv(x, i - 1) }
+}
+pub open spec fn ffill_elem(x: Seq<T>, value: Option<T>, i: int, o: T) -> bool {
+    if x[i].opt().is_some() { o == x[i] }
+    else { match lastv(x, i) { Some(l) => o == l, None => match value { Some(f) => o == f, None => o.opt().is_none() } } }
+}
+pub open spec fn ffill_ok(out: Seq<T>, x: Seq<T>, value: Option<T>) -> bool {
+    &&& out.len() == x.len()
+    &&& forall|i: int| 0 <= i < x.len() ==> ffill_elem(x, value, i, #[trigger] out[i])
+}
+// the mask handed to ffill_mask / bfill_mask is the null test (what ffill / bfill pass)
+pub open spec fn mask_is_null_test<F: Fn(&T) -> bool>(m: F) -> bool {
+    &&& forall|v: &T| #[trigger] m.requires((v,))
+    &&& forall|v: &T, b: bool| #[trigger] m.ensures((v,), b) ==> b == v.opt().is_none()
+}
+pub proof fn lemma_lastv_push(x: Seq<T>, v: T, i: int)
+    requires 0 <= i <= x.len(),
+    ensures lastv(x.push(v), i) == lastv(x, i),
+    decreases i
+{
+    if i > 0 { lemma_lastv_push(x, v, i - 1); assert(x.push(v)[i - 1] == x[i - 1]); }
+}
+
+//@fn name=ffill_mask crate=tea-map ctx="pub trait MapValidBasic" props=C13,C09
+//@sig fn ffill_mask<F: Fn(&T) -> bool>(this: It<T>, mask_func: F, value: Option<T>) -> (r: It<T>)
+//@replace this.map(f) => this.map_mut(f)
+//@replace lv.clone() => *lv
+//@replace value.clone() => *value
+//@replace v.clone() => v
+//@closure 1 name=CloFfill trait="MapFn<T, T>" params="v: T" ret="(o: T)" push="(v, __r)" caps="ref mask_func: F, value: Option<T>, mut last_valid: Option<T>" callty="(T, T)" generics="<F: Fn(&T) -> bool>" generics_use="<F>"
+//@closure 1 extra
+    open spec fn hist(&self) -> Seq<(T, T)> { self.h@ }
+    open spec fn arg_ok(v: T) -> bool { true }
+//@closure 1 inv
+        &&& mask_is_null_test(self.mask_func)
+        &&& self.last_valid == lastv(args(self.h@), self.h@.len() as int)                                  // #C13 state_is_the_last_non_null_element
+        &&& forall|j: int| 0 <= j < self.h@.len() ==> ffill_elem(args(self.h@), self.value, j, (#[trigger] self.h@[j]).1)    // #C13 outputs_so_far_are_forward_filled
+//@at closure 1 first
+        let ghost h0 = self.h@;
+//@at closure 1 last
+        proof {
+            let h1 = h0.push((v, __r));
+            assert(args(h1) =~= args(h0).push(v));
+            lemma_lastv_push(args(h0), v, h0.len() as int);
+            assert forall|j: int| 0 <= j < h1.len() implies ffill_elem(args(h1), self.value, j, (#[trigger] h1[j]).1) by {
+                if j < h0.len() {
+                    lemma_lastv_push(args(h0), v, j);
+                    assert(args(h1)[j] == args(h0)[j]);
+                    assert(h1[j] == h0[j]);
+                }
+            }
+        }
+//@spec
+    requires honest_out(&this), mask_is_null_test(mask_func),
+    ensures
+        ffill_ok(r.seq(), this.seq(), value),          // #C13 forward_fill_positional
+        honest_out(&r),                                // #C09 ffill_preserves_length
+//@at body last
+    proof {
+        let h = __clo1.h@;
+        assert(args(h) =~= this.seq());
+        assert forall|i: int| 0 <= i < this.seq().len() implies ffill_elem(this.seq(), value, i, #[trigger] __ret.seq()[i]) by {
+            assert(ffill_elem(args(h), value, i, h[i].1));
+        }
+    }
+//@end
+
+//@fn name=ffill crate=tea-map ctx="pub trait MapValidBasic" props=C13,C09
+//@sig fn ffill(this: It<T>, value: Option<T>) -> (r: It<T>)
+//@replace this.ffill_mask(T::is_none, value) => ffill_mask(this, is_none_fn, value)
+//@spec
+    requires honest_out(&this),
+    ensures
+        ffill_ok(r.seq(), this.seq(), value),          // #C13 forward_fill_positional
+        honest_out(&r),                                // #C09 ffill_preserves_length
+//@end
+
+// ---- backward fill: forward fill of the reversed series, reversed
+pub open spec fn nextv(x: Seq<T>, j: int) -> Option<T>
+    decreases x.len() - j
+{
+    if j < 0 || j >= x.len() { None } else if x[j].opt().is_some() { Some(x[j]) } else { nextv(x, j + 1) }
+}
+pub open spec fn bfill_elem(x: Seq<T>, value: Option<T>, i: int, o: T) -> bool {
+    if x[i].opt().is_some() { o == x[i] }
+    else { match nextv(x, i + 1) { Some(l) => o == l, None => match value { Some(f) => o == f, None => o.opt().is_none() } } }
+}
+pub open spec fn bfill_ok(out: Seq<T>, x: Seq<T>, value: Option<T>) -> bool {
+    &&& out.len() == x.len()
+    &&& forall|i: int| 0 <= i < x.len() ==> bfill_elem(x, value, i, #[trigger] out[i])
+}
+pub proof fn lemma_lastv_reverse(x: Seq<T>, i: int)
+    requires 0 <= i <= x.len(),
+    ensures lastv(x.reverse(), i) == nextv(x, x.len() - i),
+    decreases i
+{
+    if i > 0 {
+        lemma_lastv_reverse(x, i - 1);
+        assert(x.reverse()[i - 1] == x[x.len() - i]);
+    }
+}
+
+//@fn name=bfill_mask crate=tea-map ctx="pub trait MapValidBasic" props=C13,C09
+//@sig fn bfill_mask<F: Fn(&T) -> bool>(this: It<T>, mask_func: F, value: Option<T>) -> (r: It<T>)
+//@replace .map(f) => .map_mut(f)
+//@replace .collect_trusted_to_vec() => .collect_trusted_vec1()
+//@replace .into_iter() => .into_it()
+//@replace lv.clone() => *lv
+//@replace value.clone() => *value
+//@replace v.clone() => v
+//@closure 1 name=CloBfill trait="MapFn<T, T>" params="v: T" ret="(o: T)" push="(v, __r)" caps="ref mask_func: F, value: Option<T>, mut last_valid: Option<T>" callty="(T, T)" generics="<F: Fn(&T) -> bool>" generics_use="<F>"
+//@closure 1 extra
+    open spec fn hist(&self) -> Seq<(T, T)> { self.h@ }
+    open spec fn arg_ok(v: T) -> bool { true }
+//@closure 1 inv
+        &&& mask_is_null_test(self.mask_func)
+        &&& self.last_valid == lastv(args(self.h@), self.h@.len() as int)                                  // #C13 state_is_the_last_non_null_element
+        &&& forall|j: int| 0 <= j < self.h@.len() ==> ffill_elem(args(self.h@), self.value, j, (#[trigger] self.h@[j]).1)    // #C13 outputs_so_far_are_forward_filled
+//@at closure 1 first
+        let ghost h0 = self.h@;
+//@at closure 1 last
+        proof {
+            let h1 = h0.push((v, __r));
+            assert(args(h1) =~= args(h0).push(v));
+            lemma_lastv_push(args(h0), v, h0.len() as int);
+            assert forall|j: int| 0 <= j < h1.len() implies ffill_elem(args(h1), self.value, j, (#[trigger] h1[j]).1) by {
+                if j < h0.len() {
+                    lemma_lastv_push(args(h0), v, j);
+                    assert(args(h1)[j] == args(h0)[j]);
+                    assert(h1[j] == h0[j]);
+                }
+            }
+        }
+//@spec
+    requires honest_out(&this), mask_is_null_test(mask_func),
+    ensures
+        bfill_ok(r.seq(), this.seq(), value),          // #C13 backward_fill_positional
+        r.seq().len() == this.seq().len() && r.forever().is_none(),       // #C09 bfill_preserves_length
+//@at body last
+    proof {
+        let x = this.seq();
+        let xr = x.reverse();
+        let h = __clo1.h@;
+        assert(args(h) =~= xr);
+        let y = Seq::new(h.len(), |i: int| h[i].1);
+        assert forall|i: int| 0 <= i < x.len() implies bfill_elem(x, value, i, #[trigger] __ret.seq()[i]) by {
+            let k = x.len() - 1 - i;
+            assert(ffill_elem(args(h), value, k, h[k].1));
+            lemma_lastv_reverse(x, k);
+            assert(xr[k] == x[i]);
+        }
+    }
+//@end
+
+//@fn name=bfill crate=tea-map ctx="pub trait MapValidBasic" props=C13,C09
+//@sig fn bfill(this: It<T>, value: Option<T>) -> (r: It<T>)
+//@replace this.bfill_mask(T::is_none, value) => bfill_mask(this, is_none_fn, value)
+//@spec
+    requires honest_out(&this),
+    ensures
+        bfill_ok(r.seq(), this.seq(), value),          // #C13 backward_fill_positional
+        r.seq().len() == this.seq().len() && r.forever().is_none(),       // #C09 bfill_preserves_length
 //@end
 
 } // verus!
